@@ -404,11 +404,22 @@ def run_rt_case(env, acc, prefix, tmp, vpd, pcm, pic, fname, as_numpy, label):
     wrote = False
     if not (acc.full(C_RAW) and acc.full(C_META) and acc.full(C_RT)):
         try:
-            ff.write(fresh_input(), vp, mode, path)
+            given = fresh_input()
+            ff.write(given, vp, mode, path)
             wrote = True
         except Exception as e:
             acc.count(C_RT)
             acc.fail(C_RT, "write() raised on an in-range picture", inputs, "files written", repr(e))
+        if wrote:
+            # frame condition: writing leaves the caller's picture as it was (else a second write of the same picture, or a
+            # comparison of the read-back values with the picture that was handed in, no longer agrees)
+            acc.count(C_RT)
+            try:
+                changed = pic_mismatch(norm_picture(given), pic)
+            except Exception as e:
+                changed = {"exception": repr(e)}
+            if changed:
+                acc.fail(C_RT, "write() modified the picture it was given", inputs, "the caller's picture unchanged", changed)
     if wrote:
         if not acc.full(C_RAW):
             acc.count(C_RAW)
@@ -447,8 +458,12 @@ def run_rt_case(env, acc, prefix, tmp, vpd, pcm, pic, fname, as_numpy, label):
         acc.count(C_RAW)
         try:
             f = io.BytesIO()
-            ff.write_picture(fresh_input(), vp, mode, f)
+            given = fresh_input()
+            ff.write_picture(given, vp, mode, f)
             raw = f.getvalue()
+            changed = pic_mismatch(norm_picture(given), pic)
+            if changed:
+                acc.fail(C_RAW, "write_picture modified the picture it was given", inputs, "the caller's picture unchanged", changed)
             if raw != want_raw:
                 k = first_diff(raw, want_raw)
                 acc.fail(C_RAW, "bytes written by write_picture differ from the documented layout", inputs,
@@ -580,6 +595,41 @@ def job_rt(d_luma, tier, seed, tmp, acc):
         vpd = gen_vpd(rng, w, h, 0, excursion_for_depth(d_luma, rep_i, rng), excursion_for_depth(d_c, rep_i + 1, rng), env.enums)
         pic = gen_picture(rng, vpd, 0, ["walk1", "walk1", "walk0"], rng.getrandbits(32), salt=rep_i)
         run_rt_case(env, acc, "", tmp, vpd, 0, pic, "walk_%d.raw" % rep_i, False, "walking one/zero, luma depth %d, colour difference depth %d" % (d_luma, d_c))
+
+
+# (an extension-less base name that itself contains a dot, e.g. "clip.v3_0", is ambiguous - ".v3_0" reads as an extension - and is not exercised)
+NAME_SHAPES = ["plain/picture_%d", "run.1/picture_%d", "run.1/picture_%d.raw", "a.b.c/p.q_%d.json", "take.2/clip_%d", "nodots/clip_%d.raw"]
+
+
+def job_names(idx, tier, seed, tmp, acc):
+    """Round trip through files for several shapes of file name (with and without extension, dots in directory and base names):
+    two different pictures written under two different names are both read back unchanged."""
+    env = Env.get()
+    ff = env.ff
+    rng = random.Random("%s-c23-names-%d" % (seed, idx))
+    shape = NAME_SHAPES[idx % len(NAME_SHAPES)]
+    cf, pcm = FORMATS[idx % len(FORMATS)]
+    w, h = pick_size(rng, cf, pcm, 6)
+    vpd = gen_vpd(rng, w, h, cf, excursion_for_depth(10, idx, rng), excursion_for_depth(9, idx + 1, rng), env.enums)
+    vp, mode = env.vp(vpd), env.PCM(pcm)
+    pics = [gen_picture(rng, vpd, pcm, ["random", "index", "edge"], n, salt=n) for n in (0, 1)]
+    base = os.path.join(tmp, "names_%d" % idx)
+    os.makedirs(os.path.join(base, os.path.dirname(shape)))
+    names = [os.path.join(base, shape % n) for n in (0, 1)]
+    inputs = {"file_names": [shape % 0, shape % 1], "format": describe_case(vpd, pcm, pics[0])}
+    acc.count("roundtrip")
+    try:
+        for name, pic in zip(names, pics):
+            ff.write(copy_pic(pic), vp, mode, name)
+        for name, pic in zip(names, pics):
+            problem = read_result_problem(env, ff.read(name), vpd, pcm, pic)
+            if problem:
+                acc.fail("roundtrip", "read(name) after write(picture, name) (and a write of another picture under another name) does not return the values written",
+                         inputs, "identical values", problem)
+                break
+    except Exception as e:
+        acc.fail("roundtrip", "write()/read() raised for an in-range picture", inputs, "identical values", {"exception": repr(e)})
+    shutil.rmtree(base, ignore_errors=True)
 
 
 def job_allvalues(d, tier, seed, tmp, acc):
@@ -866,6 +916,35 @@ def job_cmp_meta(idx, tier, seed, tmp, acc):
     run(vpd, 1 - pcm, n, "picture coding mode differs, everything else equal")
     for nb in sorted({n ^ 1, n ^ (1 << 31), (n + 1) % (1 << 32), (1 << 32) - 1 - n, rng.getrandbits(32)} - {n}):
         run(vpd, pcm, nb, "picture number %d vs %d, everything else equal" % (n, nb))
+    # the second file's metadata spells one item with a value outside the tables: it does not match the first file's, so the tool must
+    # not say 'identical' / exit 0 (refusing the file with an error is fine)
+    for key, bad in (("transfer_function_index", 99), ("color_primaries_index", 99), ("color_matrix_index", 99), ("color_diff_format_index", 99),
+                     ("source_sampling", 99), ("picture_coding_mode", 7)):
+        if acc.full("cmp-metadata"):
+            break
+        k_case[0] += 1
+        sa, sb = os.path.join(tmp, "ua_%d_%d" % (idx, k_case[0])), os.path.join(tmp, "ub_%d_%d" % (idx, k_case[0]))
+        ref_write(sa, *A)
+        ref_write(sb, *A)
+        with open(sb + ".json") as f:
+            meta = json.load(f)
+        if key == "picture_coding_mode":
+            meta[key] = bad
+        else:
+            meta["video_parameters"][key] = bad
+        with open(sb + ".json", "w") as f:
+            json.dump(meta, f)
+        for fa, fb in ((sa, sb), (sb, sa)):
+            acc.count("cmp-metadata")
+            st, msg, code = call_compare(env, fa + ".raw", fb + ".raw")
+            same = (st == "ok" and (code == 0 or SAYS_IDENTICAL in msg.lower())) or (st == "abort" and msg in (0, None))
+            if same:
+                acc.fail("cmp-metadata", "compare_pictures: a picture whose metadata holds an unrecognised value was reported identical to one with a recognised value",
+                         {"first": describe_case(*A), "second_json_changed": {key: bad}, "order": "changed file second" if fa == sa else "changed file first"},
+                         {"identical": False}, {"status": st, "message": msg, "exit": code})
+        for x in (sa, sb):
+            for e in (".raw", ".json"):
+                os.unlink(x + e)
     if idx == 3:
         acc.sample("cmp-metadata", {"luma_depth": d, "frame": [w, h], "changed": "each of the 20 video parameters, the coding mode, the picture number"})
 
@@ -976,7 +1055,7 @@ def job_large(idx, tier, seed, tmp, acc):
     compare_case(env, acc, "cmp-identical", tmp, "Li%d" % idx, (vpd, pcm, a_pic), (vpd, pcm, copy_pic(a_pic)), True, label)
 
 
-JOBS = {"rt": job_rt, "allvalues": job_allvalues, "cmp": job_cmp_samples, "meta": job_cmp_meta, "cli": job_cli, "large": job_large}
+JOBS = {"rt": job_rt, "allvalues": job_allvalues, "cmp": job_cmp_samples, "meta": job_cmp_meta, "cli": job_cli, "large": job_large, "names": job_names}
 
 
 def _run_job(job):
@@ -1059,6 +1138,7 @@ def check(rep, tier, seed):
     quick = tier == "quick"
     extra_depths = [65, 66, 72, 96, 100, 127, 128, 129] if quick else list(range(65, 131)) + [160, 255, 256, 257]
     jobs = [("large", i, tier, seed) for i in reversed(range(len(LARGE_QUICK if quick else LARGE_THOROUGH)))]
+    jobs += [("names", i, tier, seed) for i in range(len(NAME_SHAPES) * (1 if quick else 4))]
     jobs += [("allvalues", d, tier, seed) for d in range(16 if quick else 18, 0, -1)]  # largest first
     jobs += [("cmp", d, tier, seed) for d in range(64, 0, -1)]
     jobs += [("rt", d, tier, seed) for d in list(range(1, 65)) + extra_depths]
